@@ -36,7 +36,7 @@ EXTRA_PROPS = {
 # necessary condition of *every* behavioural property for the code that property is anchored in: they also run under a
 # property that does not list them, restricted to constructs located in that property's anchored files
 # (properties.jsonl anchors.files + polarity.EXTRA_FILES).  Prefix match on the rule id.
-SAFETY_RULES = ('R-SIG-', 'R-MLT-', 'R-UAC-', 'R-DISCR-ORDER', 'R-INIT-DISCR', 'R-EXC-PAIR', 'R-MOVE', 'R-FWD-ONCE', 'R-OWN-', 'R-SMF-FLAG', 'R-ASSIGN-ALIAS',
+SAFETY_RULES = ('R-SIG-', 'R-MLT-', 'R-UAC-', 'R-DISCR-ORDER', 'R-INIT-DISCR', 'R-EXC-PAIR', 'R-MOVE', 'R-FWD-ONCE', 'R-NOTHROW-SRC', 'R-NOEXCEPT-BODY', 'R-OWN-', 'R-SMF-FLAG', 'R-ASSIGN-ALIAS',
                 'R-ELECT-', 'R-DEREG-', 'R-CAS-STALE', 'R-MO-', 'R-AVAL-', 'R-CHAN', 'R-CB-AFTER-INIT', 'R-STOP-WRITES', 'R-CANCEL-FLAG', 'R-LIST-', 'R-LOCK-',
                 'R-NOTIFY', 'R-REQSTOP-', 'R-SIB-')
 SCOPED_NOT_FOR = {'C20'}     # C20 compares configurations; it borrows nothing
